@@ -15,10 +15,16 @@ def DataFrame_select (truth : Term → Bool) : Out :=
   let eff0 : Term := (Term.app "for" [(Term.sym "colname"), (Term.sym "colnames"), (Term.app "block" [(Term.app "yield" [(Term.app "tuple" [(Term.sym "colname"), (Term.app ".copy" [(Term.app "getitem" [(Term.sym "self"), (Term.sym "colname")])])])])])]);
   Out.fall [eff0]
 
+/-- the decorators of dataiter/data_frame.py: DataFrame.select, outermost first -/
+def DataFrame_select_decorators : List String := ["deco.new_from_generator"]
+
 /-- dataiter/data_frame.py: DataFrame.unselect (sha256 of the function source: 4800fa2fa5405077) -/
 def DataFrame_unselect (truth : Term → Bool) : Out :=
   let eff0 : Term := (Term.app "for" [(Term.sym "colname"), (Term.app ".colnames" [(Term.sym "self")]), (Term.app "block" [(Term.app "if" [(Term.app "NotIn" [(Term.sym "colname"), (Term.sym "colnames")]), (Term.app "block" [(Term.app "yield" [(Term.app "tuple" [(Term.sym "colname"), (Term.app ".copy" [(Term.app "getitem" [(Term.sym "self"), (Term.sym "colname")])])])])]), (Term.app "block" [])])])]);
   Out.fall [eff0]
+
+/-- the decorators of dataiter/data_frame.py: DataFrame.unselect, outermost first -/
+def DataFrame_unselect_decorators : List String := ["deco.new_from_generator"]
 
 /-- dataiter/data_frame.py: DataFrame.rename (sha256 of the function source: 1fc6f52d1123139b) -/
 def DataFrame_rename (truth : Term → Bool) : Out :=
@@ -26,6 +32,9 @@ def DataFrame_rename (truth : Term → Bool) : Out :=
   let eff0 : Term := (Term.app "for" [(Term.sym "fm"), (Term.app ".colnames" [(Term.sym "self")]), (Term.app "block" [(Term.app "assign" [(Term.sym "to"), (Term.app ".get" [from_to_pairs', (Term.sym "fm"), (Term.sym "fm")])]), (Term.app "yield" [(Term.app "tuple" [(Term.sym "to"), (Term.app ".copy" [(Term.app "getitem" [(Term.sym "self"), (Term.sym "fm")])])])])])]);
   let to' : Term := (Term.app "value-after-loop" [(Term.sym "to"), eff0]);
   Out.fall [eff0]
+
+/-- the decorators of dataiter/data_frame.py: DataFrame.rename, outermost first -/
+def DataFrame_rename_decorators : List String := ["deco.new_from_generator"]
 
 /-- dataiter/data_frame.py: DataFrame.cbind (sha256 of the function source: 575c3a32e09cfb6e) -/
 def DataFrame_cbind (truth : Term → Bool) : Out :=
@@ -35,11 +44,17 @@ def DataFrame_cbind (truth : Term → Bool) : Out :=
   let column' : Term := (Term.app "value-after-loop" [(Term.sym "column"), eff0]);
   Out.fall [eff0]
 
+/-- the decorators of dataiter/data_frame.py: DataFrame.cbind, outermost first -/
+def DataFrame_cbind_decorators : List String := ["deco.new_from_generator"]
+
 /-- dataiter/data_frame.py: DataFrame.update (sha256 of the function source: b10bab4f7e928005) -/
 def DataFrame_update (truth : Term → Bool) : Out :=
   let eff0 : Term := (Term.app "for" [(Term.app "tuple" [(Term.sym "colname"), (Term.sym "column")]), (Term.app ".items" [(Term.sym "self")]), (Term.app "block" [(Term.app "if" [(Term.app "In" [(Term.sym "colname"), (Term.sym "other")]), (Term.app "block" [(Term.sym "continue")]), (Term.app "block" [])]), (Term.app "yield" [(Term.app "tuple" [(Term.sym "colname"), (Term.app ".copy" [(Term.sym "column")])])])])]);
   let eff1 : Term := (Term.app "for" [(Term.app "tuple" [(Term.sym "colname"), (Term.sym "column")]), (Term.app ".items" [(Term.sym "other")]), (Term.app "block" [(Term.app "assign" [(Term.sym "column"), (Term.app "._reconcile_column" [(Term.sym "self"), (Term.sym "column")])]), (Term.app "yield" [(Term.app "tuple" [(Term.sym "colname"), (Term.app ".copy" [(Term.sym "column")])])])])]);
   let column' : Term := (Term.app "value-after-loop" [(Term.sym "column"), eff1]);
   Out.fall [eff0, eff1]
+
+/-- the decorators of dataiter/data_frame.py: DataFrame.update, outermost first -/
+def DataFrame_update_decorators : List String := ["deco.new_from_generator"]
 
 end DI.Gen
